@@ -32,9 +32,16 @@ Theorem save_then_load_unaffected_by_prior_success : forall W h k1 n1 k2 n2 fs0,
 Proof. exact save_then_load_lemma. Qed.
 Print Assumptions save_then_load_unaffected_by_prior_success.
 
-Theorem tag_string_independent_of_previous_file : forall t t' h, cstr (read_tag repaired t h) = cstr (read_tag repaired t' h).
+Theorem tag_string_independent_of_previous_file : forall t t' h,
+  tag_string repaired (read_tag repaired t h) h = tag_string repaired (read_tag repaired t' h) h.
 Proof. exact tagstr_repaired. Qed.
 Print Assumptions tag_string_independent_of_previous_file.
+
+(* consistency with C07's front-end model (Maths/IOFront.v): same tag, same byte class for the text format *)
+Theorem tag_string_is_the_tag_of_the_front_end_model : forall t bytes,
+  tag_string repaired (read_tag repaired t (firstn 32 bytes)) (firstn 32 bytes) = fst (Maths.IOFront.read_tag bytes).
+Proof. exact tagstr_is_IOFront_tag. Qed.
+Print Assumptions tag_string_is_the_tag_of_the_front_end_model.
 
 (* the tree as found: shortest distinguishing histories (length 2) *)
 Theorem io_history_independent_pinned_refuted : exists W h o fs0,
@@ -44,8 +51,8 @@ Print Assumptions io_history_independent_pinned_refuted.
 
 Theorem readtag_short_file_pinned_refuted : exists W h o fs0,
   snd (inproc_after pinned W h o fs0) <> snd (fresh_after pinned W h o fs0)
-  /\ snd (inproc_after {| consume_before_open := true; tag_at_gcount := false |} W h o fs0)
-     <> snd (fresh_after {| consume_before_open := true; tag_at_gcount := false |} W h o fs0).
+  /\ snd (inproc_after {| consume_before_open := true; tag_at_gcount := false; whole_tag := false |} W h o fs0)
+     <> snd (fresh_after {| consume_before_open := true; tag_at_gcount := false; whole_tag := false |} W h o fs0).
 Proof.
   exists Wref, [Load KMat 2%nat], (Load KMat 3%nat), fsref. split.
   - exact readtag_pinned_refuted_lemma.
@@ -77,7 +84,7 @@ Proof. vm_compute. split; reflexivity. Qed.
 From OM Require Import Maths.IOSearch.
 Theorem io_shortest_distinguishing_history_pinned :
   bfs pinned Wref fsref alpha_ref 4 = Some ([Load KMat 0%nat], Load KVec 1%nat)
-  /\ bfs {| consume_before_open := true; tag_at_gcount := false |} Wref fsref alpha_ref 4 = Some ([Load KMat 2%nat], Load KMat 3%nat)
+  /\ bfs {| consume_before_open := true; tag_at_gcount := false; whole_tag := false |} Wref fsref alpha_ref 4 = Some ([Load KMat 2%nat], Load KMat 3%nat)
   /\ bfs repaired Wref fsref alpha_ref 3 = None
   /\ forall c W fs o, distinguishes c W fs [] o = false.
 Proof. exact (conj bfs_pinned (conj bfs_open_fix_only (conj bfs_repaired no_witness_of_length_0))). Qed.
